@@ -65,8 +65,16 @@ theorem foldl_write_getLast : ∀ (vs : List Bytes) (h : vs ≠ []) (r : RState)
       rw [List.foldl_cons, ih (List.cons_ne_nil _ _) (write r v), write_write]
       rfl
 
-/-- `stop` is `flush` followed by EL2, CR -/
-theorem stop_eq (r : RState) : stop r = ((flush r).1, (flush r).2 ++ [.el2, .cr]) := rfl
+/-- `stop` is `flush` followed by EL2, CR; the renderer's caches are invalidated afterwards
+(`repaint`), because the cursor line is no longer on the screen -/
+theorem stop_eq (r : RState) :
+    stop r = ((flush r).1.repaint, (flush r).2 ++ [.el2, .cr]) := rfl
+
+/-- what `stop` writes: the flush, then EL2, CR -/
+theorem stop_ops (r : RState) : (stop r).2 = (flush r).2 ++ [.el2, .cr] := rfl
+
+/-- the state after `stop`: the state after the flush with both caches invalidated -/
+theorem stop_state (r : RState) : (stop r).1 = (flush r).1.repaint := rfl
 
 /-- a flush never changes the size the renderer believes the terminal has, nor the screen it
 believes it is on -/
@@ -163,6 +171,92 @@ theorem renderViews_inv (vs : List Bytes) : ∀ (r : RState) (t : Term), InlineI
     · rw [b6, (flush_size (write r s)).2.1]; rfl
     · intro ρ hρ c
       rw [b8 ρ (by rw [a3]; exact hρ) c, a8 ρ hρ c]
+
+/-! ### the renderer after `stop` (ReleaseTerminal, or the first of two shutdowns) -/
+
+/-- the second half of `stop` — EL2, CR on the terminal and the invalidation of both caches in
+the renderer — keeps the inline invariant: the cursor stays in the last view row (now blank, at
+column 0), `linesRendered` still counts that row, so the view starts where it started; every
+other row is untouched.  With the caches invalid the cache clauses of `InlineInv` are vacuous:
+this is what the `repaint` in `stop` is for (without it the cache would claim that the erased
+row still shows its line). -/
+theorem InlineInv.eraseLine {r : RState} {t : Term} (h : InlineInv r t) (t' : Term)
+    (ht' : t' = applyOps t [.el2, .cr]) :
+    InlineInv r.repaint t' ∧ viewTop r.repaint t' = viewTop r t ∧
+    t'.main.cr = t.main.cr ∧ t'.main.top = t.main.top ∧ t'.alt = t.alt ∧ t'.w = t.w ∧
+    t'.h = t.h ∧ rowBlank t.w t'.main t'.main.cr ∧
+    (∀ ρ, ρ ≠ t.main.cr → ∀ c, t'.main.cells ρ c = t.main.cells ρ c) := by
+  obtain ⟨b1, b2, b3, b4, b5, b6, b7, b8, b9⟩ := eraseLine_term t h.onAlt t' ht'
+  have hcell : ∀ ρ, ρ ≠ t.main.cr → ∀ c, t'.main.cells ρ c = t.main.cells ρ c := by
+    intro ρ hρ c
+    rw [b9, if_neg (fun hh => hρ hh.1)]
+  refine ⟨⟨h.alt, b1, by rw [b2]; exact h.width, by rw [b3]; exact h.height,
+    by rw [b2]; exact h.wpos, by rw [b3]; exact h.hpos, ⟨b7, b8⟩, ?_, ?_, ?_, ?_⟩, ?_, b6, b5, b4,
+    b2, b3, ?_, hcell⟩
+  · show t'.main.top + max r.linesRendered 1 ≤ t'.main.cr + 1 ∧ t'.main.cr < t'.main.top + t'.h
+    rw [b5, b6, b3]; exact h.inside
+  · intro ρ h1 h2
+    rw [b6] at h1
+    rw [b5, b3] at h2
+    rw [b2]
+    exact rowBlank_congr (hcell ρ (by omega)) (h.below ρ h1 h2)
+  · intro ls hls
+    exact absurd hls (by simp [RState.repaint])
+  · intro hne
+    exact absurd rfl hne
+  · show t'.main.cr + 1 - max r.linesRendered 1 = t.main.cr + 1 - max r.linesRendered 1
+    rw [b6]
+  · intro c hc
+    rw [b9, b6, if_pos ⟨rfl, hc⟩]
+
+/-- `InlineInv` is preserved by ANY flush with nothing queued — a pending view or none (then the
+flush does nothing) —, the view stays where it is and the rows above it are untouched -/
+theorem inline_flush_inv_any (r : RState) (t : Term) (hinv : InlineInv r t) (hq : r.queued = []) :
+    InlineInv (flush r).1 (applyOps t (flush r).2) ∧
+    (flush r).1.queued = [] ∧
+    viewTop (flush r).1 (applyOps t (flush r).2) = viewTop r t ∧
+    (applyOps t (flush r).2).alt = t.alt ∧
+    (applyOps t (flush r).2).w = t.w ∧ (applyOps t (flush r).2).h = t.h ∧
+    (flush r).1.height = r.height ∧
+    (∀ ρ, ρ < viewTop r t → ∀ c, (applyOps t (flush r).2).main.cells ρ c = t.main.cells ρ c) := by
+  by_cases hbuf : r.buf = []
+  · have hnoop : flush r = (r, []) := flush_noop r (by simp [hbuf])
+    rw [hnoop]
+    exact ⟨hinv, hq, rfl, rfl, rfl, rfl, rfl, fun _ _ _ => rfl⟩
+  · obtain ⟨a1, a2, a3, _, a5, a6, a7, a8, _, _⟩ := inline_flush_inv r t hinv hq hbuf
+    exact ⟨a1, a2, a3, a5, a6, a7, (flush_size r).2.1, a8⟩
+
+/-- **after `stop` the inline invariant holds again.**  `stop` = flush, EL2, CR, caches
+invalidated: renderer and terminal still satisfy `InlineInv`; nothing is queued; both caches are
+invalid (the next flush of any view paints every line); `linesRendered` is what the flush left —
+it still counts the erased cursor row —, so the view starts at the same row; the cursor is at
+column 0 of the last view row, which is blank; rows above the view, the alt screen and the size
+are untouched. -/
+theorem inline_stop_inv (r : RState) (t : Term) (hinv : InlineInv r t) (hq : r.queued = [])
+    (r1 : RState) (t1 : Term) (hr1 : r1 = (stop r).1) (ht1 : t1 = applyOps t (stop r).2) :
+    InlineInv r1 t1 ∧ r1.queued = [] ∧ r1.lastRender = [] ∧ r1.lastLines = none ∧
+    r1.linesRendered = (flush r).1.linesRendered ∧ r1.height = r.height ∧ r1.width = r.width ∧
+    viewTop r1 t1 = viewTop r t ∧ t1.alt = t.alt ∧ t1.w = t.w ∧ t1.h = t.h ∧
+    t1.main.cr + 1 = viewTop r t + max r1.linesRendered 1 ∧
+    t1.main.cc = 0 ∧ t1.main.pw = false ∧ rowBlank t.w t1.main t1.main.cr ∧
+    (∀ ρ, ρ < viewTop r t → ∀ c, t1.main.cells ρ c = t.main.cells ρ c) := by
+  obtain ⟨a1, a2, a3, a4, a5, a6, a7, a8⟩ := inline_flush_inv_any r t hinv hq
+  rw [stop_ops, applyOps_append] at ht1
+  rw [stop_state] at hr1
+  obtain ⟨b1, b2, b3, _, b5, b6, b7, b8, b9⟩ := a1.eraseLine t1 ht1
+  subst hr1
+  have hin := a1.inside.1
+  have hvt : viewTop (flush r).1 (applyOps t (flush r).2) ≤ (applyOps t (flush r).2).main.cr := by
+    unfold viewTop; omega
+  refine ⟨b1, a2, rfl, rfl, rfl, a7, (flush_size r).1, by rw [b2, a3], by rw [b5, a4],
+    by rw [b6, a5], by rw [b7, a6], ?_, b1.col.1, b1.col.2, by rw [← a5]; exact b8, ?_⟩
+  · rw [← a3, b3]
+    show _ = viewTop _ _ + max (flush r).1.linesRendered 1
+    unfold viewTop; omega
+  · intro ρ hρ c
+    rw [← a3] at hρ
+    rw [b9 ρ (by omega) c]
+    exact a8 ρ (by rw [← a3]; exact hρ) c
 
 end Tea.Render
 
